@@ -9,6 +9,7 @@ from fractions import Fraction
 import numpy as np
 from hypothesis import strategies as st
 
+from vp.gen import layouts as LY
 from vp.api import Raised, Subcheck, must, require, sut
 from vp.case import dec, enc
 
@@ -146,7 +147,8 @@ def wmom_cases(draw):
     return {"n": n, "d": d, "arr": enc(arr), "w": enc(wcols), "wshape": wshape, "wkind": wk,
             "vkind": kinds[0], "inputmean": inputmean, "calcerr": draw(st.booleans()),
             "sdev": draw(st.booleans()),
-            "container": intmode or draw(st.sampled_from(["array", "array", "list", "intarray"]))}
+            "container": intmode or draw(st.sampled_from(["array", "array", "list", "intarray"])),
+            "layout": draw(st.sampled_from(LY.KINDS))}
 
 
 def _wmom_inputs(case):
@@ -173,6 +175,9 @@ def check_wmom(case, ctx):
         a_in = arr.astype("i2")
     elif case["container"] in ("u1array", "u8array") and integral and arr.min() >= 0 and arr.max() < 256:
         a_in = arr.astype(case["container"][:2])
+    if case["container"] == "array" and case.get("layout"):
+        a_in = np.asfortranarray(arr) if (arr.ndim == 2 and case["layout"] == "strided") else LY.relayout(arr, case["layout"])
+        w_in = LY.relayout(w, case["layout"])
     kw = {"calcerr": case["calcerr"], "sdev": case["sdev"]}
     im = case["inputmean"]
     if im is not None:
@@ -254,7 +259,7 @@ def wmedian_cases(draw):
         vk = "ties"
     wk, w = _weights(draw, n)
     return {"v": enc(v), "w": enc(w), "vkind": vk, "wkind": wk,
-            "container": draw(st.sampled_from(["array", "array", "list"]))}
+            "container": draw(st.sampled_from(["array", "array", "list"])), "layout": draw(st.sampled_from(LY.KINDS))}
 
 
 def _wmedian_accept(v, w):
@@ -312,7 +317,8 @@ def check_wmedian(case, ctx):
     if case["container"] == "list":
         got = must(es.wmedian, v.tolist(), w.tolist())
     else:
-        got = must(es.wmedian, v, w)
+        lay = case.get("layout", "contig")
+        got = must(es.wmedian, LY.relayout(v, lay), LY.relayout(w, lay))
     acc, amb = _wmedian_accept(v, w)
     if amb:
         ctx.count("wmedian-near-tie")
@@ -411,6 +417,7 @@ def clip_cases(draw, for_get_stats=False):
     case["get_err"] = draw(st.booleans())
     case["get_indices"] = draw(st.booleans())
     case["defaults"] = draw(st.integers(0, 7)) == 0          # use the default nsig/niter (4, 4)
+    case["layout"] = draw(st.sampled_from(LY.KINDS))
     return case
 
 
@@ -536,9 +543,10 @@ def check_clip(case, ctx):
     if not case["defaults"]:
         nsig, niter = case["nsig"], case["niter"]
         kw["nsig"], kw["niter"] = nsig, niter
+    lay = case.get("layout", "contig")
     if w is not None:
-        kw["weights"] = w
-    r = must(es.sigma_clip, x, **kw)
+        kw["weights"] = LY.relayout(w, lay)
+    r = must(es.sigma_clip, LY.relayout(x, lay), **kw)
     nret = 2 + int(case["get_err"]) + int(case["get_indices"])
     require(isinstance(r, (list, tuple)) and len(r) == nret, "sigma_clip returned %d values, expected %d",
             len(r) if isinstance(r, (list, tuple)) else -1, nret)
